@@ -108,6 +108,50 @@ pub fn run(rep: &mut Rep) {
         }
         add_counters(rep, &s.w);
     }
+    // large packets in front of small ones, everything available at once, reads limited to a cap: acknowledgements of
+    // what follows a large packet (whole or partly in the same read) must come out one-to-one, in order
+    let sizes: Vec<usize> = if rep.quick() { vec![600, 1500, 4000, 4097, 5000, 9000, 20_000, 70_000] } else { (3900..4300).step_by(7).chain([600, 1500, 8191, 8192, 8193, 9000, 16_384, 20_000, 65_536, 70_000, 300_000]).collect() };
+    let caps: [usize; 7] = [usize::MAX, 1000, 700, 512, 333, 100, 7];
+    rep.note(&format!("backlog behind a large packet: inbound PUBLISH of {:?} bytes (QoS 0/1/2) directly followed by QoS 1 PUBLISH, QoS 2 PUBLISH, PUBREL, QoS 1 PUBLISH - all bytes available at once, every read capped at {:?} bytes: acknowledgements matched one-to-one in order", sizes, caps));
+    let mut bidx = total + 50_000_000;
+    for (si, &sz) in sizes.iter().enumerate() {
+        for (ci, &cap) in caps.iter().enumerate() {
+            let id = format!("big:{sz}:{ci}");
+            bidx += 1;
+            if !rep.take(bidx, &id) {
+                continue;
+            }
+            let mut s = setup(rep.seed);
+            s.w.sim.log_enabled = sz < 10_000;
+            s.w.sim.capture = Some(Vec::new());
+            let q = ((si + ci) % 3) as u8;
+            let reg = s.reg_sub;
+            s.w.in_publish_sized(q, 100, false, &[reg], sz);
+            if q == 2 {
+                s.w.in_pubrel(100);
+            }
+            s.w.in_publish(1, 1, false, &[reg], false);
+            s.w.in_publish(2, 2, false, &[], false);
+            s.w.in_pubrel(2);
+            s.w.in_publish(1, 3, true, &[7777], false);
+            let bytes = s.w.sim.capture.take().unwrap();
+            s.w.sim.reader.0.borrow_mut().default_cap = cap;
+            s.w.sim.feed(&bytes);
+            s.w.settle_check();
+            s.w.sim.reader.0.borrow_mut().default_cap = usize::MAX;
+            // one more round trip shows the connection is still in step
+            s.w.in_publish(1, 4, false, &[reg], false);
+            s.w.settle_check();
+            super::script::finish(&mut s.w);
+            rep.add("evaluations", 1);
+            rep.add("large_packet_backlog_cases", 1);
+            rep.distinct(&("big", sz, ci));
+            if harvest(rep, &mut s.w, &id) == 0 {
+                rep.sample(|| format!("{id}: {} bytes in reads of <= {cap}: {} acknowledgements matched in order", bytes.len(), s.w.counters.inbound_acks_matched));
+            }
+            add_counters(rep, &s.w);
+        }
+    }
     // random longer sequences with ids across the 16-bit range, interleaved with client operations
     let walks = if rep.quick() { 300 } else { 20000 };
     for widx in 0..walks {
